@@ -631,3 +631,30 @@ Proof.
   intros L. unfold distance_mask_grid. apply where_mask_length.
   unfold mask_grid. rewrite distance_mask_all_length, meshgrid_length. lia.
 Qed.
+
+(** ** combined statements used by Props/C15.v *)
+Lemma knn_shape r k pts vals qs :
+  length (knn_predict_all r k pts vals qs) = length qs /\
+  forall j, (j < length qs)%nat ->
+    nth j (knn_predict_all r k pts vals qs) 0 = knn_predict r k pts vals (nth j qs p0).
+Proof. split; [apply knn_predict_all_length|apply knn_predict_all_nth]. Qed.
+
+Lemma min_max_spec l : l <> [] ->
+  (In (qmin_list l) l /\ forall x, In x l -> qmin_list l <= x) /\
+  (In (qmax_list l) l /\ forall x, In x l -> x <= qmax_list l).
+Proof. intros H. split; [apply qmin_list_spec|apply qmax_list_spec]; exact H. Qed.
+
+Lemma median_sort l : Permutation (qsort l) l /\ StronglySorted Qle (qsort l).
+Proof. split; [apply qsort_perm|apply qsort_sorted]. Qed.
+
+Lemma others_d2_all k pts i :
+  Forall2 (fun d a => d == dist2 pts (nth i pts p0) a) (others_d2 k pts i) (others_nearest k pts i) /\
+  StronglySorted Qle (others_d2 k pts i) /\
+  length (others_d2 k pts i) = Nat.min k (length pts - 1).
+Proof. split; [apply others_d2_spec|split; [apply others_d2_ascending|apply others_d2_length]]. Qed.
+
+Lemma mask_shape proj maxdist data qs :
+  length (distance_mask_all proj maxdist data qs) = length qs /\
+  forall j, (j < length qs)%nat ->
+    nth j (distance_mask_all proj maxdist data qs) false = distance_mask_proj proj maxdist data (nth j qs p0).
+Proof. split; [apply distance_mask_all_length|apply distance_mask_all_nth]. Qed.
